@@ -616,6 +616,7 @@ def exec_schedule(arg) -> dict:
 
 PROFILE_GRAIN = 64
 COMPONENT_GRAIN = 16
+TIER0_BOUNDARIES = 25000
 
 
 def profile_hot(arg) -> dict:
@@ -662,6 +663,7 @@ def profile_hot(arg) -> dict:
                     fine.update((w - 1, w, w + 1))
             stack: list = []
             last = [fs.sig()]
+            last0 = [fs.sig0()]
             n = [0]
 
             def check(code, caller=None):
@@ -677,6 +679,16 @@ def profile_hot(arg) -> dict:
                 w = n[0] // PROFILE_GRAIN
                 if fine is None:
                     if n[0] % PROFILE_GRAIN:
+                        # between the full comparisons: a cheap signature at EVERY boundary (of the first
+                        # TIER0_BOUNDARIES of an encode - the same functions run again and again afterwards), so
+                        # that a change that is undone a few boundaries later (pop ... store) still flags its window
+                        if n[0] > TIER0_BOUNDARIES:
+                            return
+                        c0 = fs.sig0()
+                        if c0 != last0[0]:
+                            last0[0] = c0
+                            if not flagged.get(key) or flagged[key][-1] != w:
+                                flagged.setdefault(key, []).append(w)
                         return
                 elif w not in fine:
                     if n[0] % PROFILE_GRAIN == 0:
